@@ -20,6 +20,7 @@
 (***************************************************************************)
 EXTENDS Imports, IOUtils
 
+\* @@BODY   (the check appends the text from here on to the generated Imports module, see Imports.tla)
 Trace == JsonDeserialize(IOEnv.TRACE_FILE)
 VARIABLE i
 tvars == <<entries, ms, g, stack, order, phase, cur, fail, i>>
